@@ -15,6 +15,7 @@ HARNESSES = [
     Harness('c23_idle_task_sleeps_with_a_pending_read', 'wakeup.idle_task_sleeps_with_pending_read_and_is_wakeable', 'TaskState::callback (%s)' % A),
     Harness('c23_wakeup_event_polls_task_again_without_cancel', 'wakeup.event_polls_task_again_read_not_cancelled', 'TaskState::{callback, deliver_waitable_event} (%s)' % A),
     Harness('c23_other_event_cancels_pending_read_before_polling', 'wakeup.pending_read_cancelled_before_next_poll', 'TaskState::{callback, cancel_inter_task_stream_read} (%s, %s)' % (A, I)),
+    Harness('c23_yield_leaves_task_woken_not_sleeping', 'wakeup.yield_does_not_mark_task_sleeping', 'TaskState::callback, SharedTaskState::wake_by_ref (%s)' % A),
 ]
 
 
